@@ -52,32 +52,58 @@ def gen_history(streams, tier, profile):
 
     ops.append({"op": "eval", "entry": hrng.choice(ents), "style": hrng.choice(styles)})
     loads_after()
+    weights = {"eval": 0.42, "edit": 0.28, "revert": profile.get("p_revert", 0.06), "restart": 0.10,
+               "switch": profile.get("p_switch", 0.02), "mutate": profile.get("p_mutate", 0.0), "chdir": 0.03}
+    names = sorted(weights)
+    total = sum(weights.values())
+    p2 = profile.get("p_proc2", 0.0)
+    two = p2 > 0 and cfg.random() < p2      # a second, long-running process next to the main one
+
+    def pick():
+        r = hrng.random() * total
+        for k in names:
+            r -= weights[k]
+            if r <= 0:
+                return k
+        return "eval"
+
+    def proc():
+        return 1 if (two and hrng.random() < 0.4) else 0
+
     while len(ops) < n:
-        r = hrng.random()
-        if r < 0.45:
+        k = pick()
+        if k == "eval":
             ents = gen.entries(cur)
-            ops.append({"op": "eval", "entry": hrng.choice(ents), "style": hrng.choice(styles)})
+            op = {"op": "eval", "entry": hrng.choice(ents), "style": hrng.choice(styles)}
+            pr = proc()
+            if pr:
+                op["proc"] = pr
+            ops.append(op)
             loads_after()
-        elif r < 0.75:
+        elif k == "edit":
             e = gen.gen_edit(hrng, cur, edit_kinds)
             cur = gen.apply_edit(cur, e)
             nedits += 1
             ops.append({"op": "edit", "edit": e})
             if hrng.random() < p_restart:
                 ops.append({"op": "restart"})
-        elif r < 0.75 + profile.get("p_revert", 0.08) and nedits:
+        elif k == "revert" and nedits:
             ops.append({"op": "revert", "to": hrng.randrange(0, nedits)})
             nedits += 1
             ops.append({"op": "restart"})
-        elif r < 0.9:
+        elif k == "restart":
             ops.append({"op": "restart"})
-        elif r < 0.9 + profile.get("p_switch", 0.03):
+        elif k == "switch":
             ops.append({"op": "switch_store", "store": gen_store(cfg, profile.get("stores", ("local", "memory")))})
-        elif r < 0.97 and profile.get("p_mutate", 0.0) > 0 and cur["vars"]:
+        elif k == "mutate" and cur["vars"]:
             v = hrng.choice(sorted(cur["vars"]))
             kind = cur["vars"][v]["kind"]
-            ops.append({"op": "mutate", "var": v, "value": hrng.choice(gen.VAR_VALUES[kind])})
-        else:
+            op = {"op": "mutate", "var": v, "value": hrng.choice(gen.VAR_VALUES[kind]), "inplace": hrng.random() < 0.5}
+            pr = proc()
+            if pr:
+                op["proc"] = pr
+            ops.append(op)
+        elif k == "chdir":
             ops.append({"op": "chdir"})
     # always end with an evaluation after the last change
     ops.append({"op": "eval", "entry": hrng.choice(gen.entries(cur)), "style": hrng.choice(styles)})
